@@ -1,3 +1,6 @@
 import FinProtoc.Props.C11
 #print axioms FinProtoc.Props.format_no_panic
 #print axioms FinProtoc.Props.format_syntax_error_no_print
+#print axioms FinProtoc.Props.visit_no_crash
+#print axioms FinProtoc.Props.visit_no_crash'
+#print axioms FinProtoc.Props.visit_text_no_crash
